@@ -558,14 +558,16 @@ def stream (fs : List String) : String :=
 /-! ### bridge: `j2m <hex> <slice|reader>`, `m2j <hex> <slice|reader>`
 
 Answer: `<verdict> <output hex>`.  Floats go through `Bridge.markerIO`: a JSON
-float becomes the binary64 with bits 0, a finite MessagePack float is written
-as `F` (the harness masks the implementation's output the same way).  A
-MessagePack document with a float in key position makes the output field `fk`
-(a quoted float cannot be told from a string in the implementation's output).
-The source error kind is reported for JSON sources only: for MessagePack
-sources the kind is the `msgdecode` engine's subject, and within one failing
-document a serializer refusal may precede the decoder's failure (not modelled:
-the reference decoder returns no partial value). -/
+float becomes the binary64 with bits 0 (the harness zeroes the payload of every
+float 64 in the implementation's output), a finite MessagePack float is written
+as the token `0.5`; JSON text is then canonicalised on both sides by
+`maskFloats`: every number token with a `.`, `e` or `E` becomes `F`, and so does
+the content of every string that consists of number characters only and has one
+of those three (a float in key position is written as a quoted float, which the
+text does not tell from a string).  MessagePack → JSON answers include what was
+written of a failing document (`msgpack2jsonX`).  The source error kind is
+reported for JSON sources only (for MessagePack sources it is the `msgdecode`
+engine's subject). -/
 namespace BR
 open Xt.Bridge
 
@@ -578,22 +580,39 @@ def serTok : Xt.Serde.SErr → String
   | .own n => s!"ser:{n}"
   | .custom m => "ser:custom:" ++ m.replace " " "_"
 
-mutual
-  def hasFloatKey : Xt.Msgpack.MVal → Bool
-    | .arr xs => hasFloatKeyList xs
-    | .map kvs => hasFloatKeyPairs kvs
-    | _ => false
-  def hasFloatKeyList : List Xt.Msgpack.MVal → Bool
-    | [] => false
-    | x :: xs => hasFloatKey x || hasFloatKeyList xs
-  def hasFloatKeyPairs : List (Xt.Msgpack.MVal × Xt.Msgpack.MVal) → Bool
-    | [] => false
-    | (k, v) :: kvs =>
-      (match k with
-       | .f32 _ => true
-       | .f64 _ => true
-       | _ => hasFloatKey k) || hasFloatKey v || hasFloatKeyPairs kvs
-end
+/-- Finite floats as the token `0.5`. -/
+def tokenIO : FloatIO := ⟨fun _ => 0, fun _ => [0x30, 0x2E, 0x35], fun _ => [0x30, 0x2E, 0x35]⟩
+
+def isNumCh (b : Nat) : Bool :=
+  (0x30 ≤ b && b ≤ 0x39) || b == 0x2B || b == 0x2D || b == 0x2E || b == 0x65 || b == 0x45
+
+def hasFloatCh (bs : List Nat) : Bool := bs.any fun b => b == 0x2E || b == 0x65 || b == 0x45
+
+/-- The raw content of a string up to its closing quote (escapes kept as
+written), whether it was closed, and what follows. -/
+def strContent : List Nat → List Nat → List Nat × Bool × List Nat
+  | [], acc => (acc.reverse, false, [])
+  | 0x22 :: rest, acc => (acc.reverse, true, rest)
+  | 0x5C :: c :: rest, acc => strContent rest (c :: 0x5C :: acc)
+  | b :: rest, acc => strContent rest (b :: acc)
+
+def spanNum : List Nat → List Nat → List Nat × List Nat
+  | [], acc => (acc.reverse, [])
+  | b :: rest, acc => if isNumCh b then spanNum rest (b :: acc) else (acc.reverse, b :: rest)
+
+partial def maskGo : List Nat → List Nat → List Nat
+  | [], acc => acc.reverse
+  | b :: rest, acc =>
+    if b == 0x22 then
+      let (content, closed, rest') := strContent rest []
+      let c := if !content.isEmpty && content.all isNumCh && hasFloatCh content then [0x46] else content
+      maskGo rest' ((if closed then [0x22] else []) ++ (c.reverse ++ (0x22 :: acc)))
+    else if b == 0x2D || (0x30 ≤ b && b ≤ 0x39) then
+      let (tok, rest') := spanNum (b :: rest) []
+      maskGo rest' ((if hasFloatCh tok then [0x46] else tok).reverse ++ acc)
+    else maskGo rest (b :: acc)
+
+def maskFloats (bs : List Nat) : List Nat := maskGo bs []
 
 def bigInput : Nat := 3000
 
@@ -614,18 +633,23 @@ def bridge (fs : List String) : String :=
     match parseHex hex, modeOf mode with
     | some bs, some m =>
       -- The model's slice loop re-slices its input for every value (as the code
-      -- does) and is quadratic on `List`s; above `bigInput` bytes the reader
-      -- loop is run instead.  Same answer: `Xt.Props.Fidelity.m2j_slice_answer_eq_reader`
-      -- (same documents, same output, `ok` for the same inputs).
-      let m := if bs.length > bigInput then Mode.reader else m
-      let r := msgpack2json markerIO m bs
+      -- does) and is quadratic on `List`s.  For a long input the reader loop is
+      -- run first: unless it ends in a source failure, the slice answer is the
+      -- same (`Xt.Props.Fidelity.m2j_slice_answer_eq_reader`: same documents,
+      -- same output, `ok` / the same refusal together, and `msgpack2jsonX` is
+      -- `msgpack2json` then); only on a source failure is the slice loop run.
+      let r :=
+        if m == .slice && bs.length > bigInput then
+          match msgpack2json tokenIO .reader bs with
+          | ⟨_, .srcMsgpack _⟩ => msgpack2jsonX tokenIO .slice bs
+          | r => r
+        else msgpack2jsonX tokenIO m bs
       let v := match r.verdict with
         | .ok => "ok"
         | .srcJson _ => "src"
         | .srcMsgpack _ => "src"
         | .ser e => serTok e
-      let fk := hasFloatKeyList (msgpackSource m bs).1
-      v ++ " " ++ (if fk then "fk" else toHex r.out)
+      v ++ " " ++ toHex (maskFloats r.out)
     | _, _ => "bad-case"
   | _ => "bad-case"
 
